@@ -75,6 +75,8 @@ func schedConfig() *vlib.Config {
 	return &vlib.Config{Default: 1, Sets: []*vlib.ParamSet{
 		{ID: 1, Alg: vlib.AlgArgon, Time: 1, Memory: 8, Threads: 1, Length: 16},
 		{ID: 2, Alg: vlib.AlgArgon, Time: 1, Memory: 8, Threads: 1, Length: 24},
+		// the other algorithm: its hasher has its own code path for "wrong password" (error value or not)
+		{ID: 3, Alg: vlib.AlgScrypt, Cost: 2, HmacKey: []byte("0123456789abcdef0123456789abcdef")},
 	}}
 }
 
